@@ -20,3 +20,15 @@ func rtOut(T int) data.ND1Float64 { return data.NewArray1DFloat64(T) }
 
 const rtAbs = 1e-9
 const rtRel = 1e-9
+
+func c12nn(tag string) float64 {
+	v := vsym.Float64(tag)
+	vsym.Assume(v >= 0)
+	return v
+}
+
+func c12one(v float64) data.ND1Float64 {
+	a := data.NewArray1DFloat64(1)
+	a.Set1(0, v)
+	return a
+}
